@@ -4,7 +4,7 @@
     datetime_to_time, LocalScheduleInterpreter.eval / process_task /
     schedule_changed, plus Date.now / Time.now of primitivedata.py.
 
-  The model describes the tree AFTER the four repairs in /verif/fixes/C20-*.patch:
+  The model describes the tree AFTER the five repairs in /verif/fixes/C20-*.patch:
     * open-ended-date-range     an unspecified (255,255,255) start or end date
                                 leaves that side of a DateRange open
     * inactive-period-rearm     outside the effective period `process_task`
@@ -16,6 +16,10 @@
                                 the transition of the winner is not overwritten
     * hundredths-transition     `datetime_to_time` keeps the hundredths and
                                 `Time.now` does not report a hundredth early
+    * reevaluate-on-period-and-default-write
+                                a write to effectivePeriod / scheduleDefault
+                                re-evaluates at once, like a write to
+                                weeklySchedule / exceptionSchedule
 
   Own Gregorian arithmetic (no library): `isLeap`, `monthLen`, `dayNum`, `succDay`, `civil` (iterated successor; this is the model of
   `time.localtime` under TZ=UTC) — `time.mktime` is `dayNum`.
@@ -425,9 +429,9 @@ def processTask (cfg : Cfg) (st : IState) (now : Nat) : IState × Option SErr :=
 def fire (cfg : Cfg) (st : IState) (now : Nat) : IState × Option SErr :=
   processTask cfg { st with deadline := .none } now
 
-/-- `schedule_changed`: a write to weeklySchedule / exceptionSchedule calls
-    `process_task` at once with the new configuration (`install_task`
-    replaces an installed deadline) -/
+/-- `schedule_changed`: a write to weeklySchedule / exceptionSchedule /
+    effectivePeriod / scheduleDefault calls `process_task` at once with the
+    new configuration (`install_task` replaces an installed deadline) -/
 def scheduleChanged (cfg' : Cfg) (st : IState) (now : Nat) : IState × Option SErr :=
   processTask cfg' st now
 
